@@ -31,12 +31,21 @@ THEOREMS = [
     'CC.C19_unknown_wave', 'CC.C19_unknown_wave_generated', 'CC.C19_wave_checked', 'CC.C19_unknown_wave_construct',
     'CC.C19_unknown_query', 'CC.C19_unknown_query_potential', 'CC.C19_unknown_query_wrappers', 'CC.C19_unknown_query_guarded',
     'CC.C19_stored_unaltered', 'CC.C19_param_stored',
+    # round 5 (CC/Properties/C19More.lean, helpers CC/Proofs/C19Load.lean)
+    'CC.C19_load_reject_first', 'CC.C19_load_reject_mem', 'CC.C19_load_unknown_type', 'CC.C19_load_unknown_type_anywhere',
+    'CC.C19_load_type_not_string', 'CC.C19_load_missing_key', 'CC.C19_load_missing_key_anywhere', 'CC.C19_load_missing_value_key',
+    'CC.C19_load_not_a_dict', 'CC.C19_load_floating', 'CC.C19_load_dup_id', 'CC.C19_load_dup_id_positions',
+    'CC.C19_transient_unknown_voltage', 'CC.C19_transient_unknown_potential', 'CC.C19_transient_unknown_current',
+    'CC.C19_transient_unknown_built', 'CC.C19_unknown_query_all_rows',
+    'CC.C19_wave_tables_agree', 'CC.C19_unknown_wave_linked',
 ]
-OPEN_STATEMENTS = ['no Lean statement (oracle only): unknown-id behaviour of TimeDomainSolution / FrequencyDomainSolution / TransientSolution accessors beyond the generated guard table (C19_unknown_query_guarded), get_power of the transient class, load_network fault classes, create_schematic fault classes',
-                   'C19_unknown_wave and conjuncts 3-4 of C19_unknown_query_guarded are about hand-written model functions (periodicFunction, requireComponent, requireNode); the generated lookup is C08_lookup (linked by C19_unknown_wave_generated), the _require_* bodies are compared verbatim by the translator']
+LEAN_MODULE_EXTRA = ['CC.Properties.C19More']
+OPEN_STATEMENTS = ['no Lean statement (oracle only): create_schematic fault classes; that TransientSolution.get_voltage / get_current / get_potential / get_power evaluate the state-space row accessors first (the translator extracts of that class only the product of get_power; C19_transient_* are about the generated accessors c_row_* / d_row_* of NodalStateSpaceModel, the link to the getters is read from solution.py:188-198 — next step: a row table for TransientSolution in harness/extract_solution.py); unknown ids against the series the Time/FrequencyDomainSolution getters compute after their guard',
+                   'load_network fault classes (C19_load_*) are theorems about the model loadNetwork of CC/Model/Load.lean on the GENERATED tables of CC/Gen/LoadTables.lean; the model body is hand-written and tied to the code by the cc_load correspondence. C19_load_missing_value_key states rejection, not the exception class (KeyError->FileExistsError, TypeError or FileFormatError depending on the table row). A description that is a dict or a str (iterated by keys / characters) is covered by C19_load_not_a_dict only through its .arr form — the .obj / .str branches of loadNetwork have no fault theorem',
+                   'conjuncts 3-4 of C19_unknown_query_guarded and C19_unknown_query_all_rows are about the hand-written copies requireComponent / requireNode (the _require_* bodies are compared verbatim by the translator); C19_unknown_wave is about the hand-written periodicFunction, which C19_unknown_wave_linked proves equivalent, for every name and on the generated table, to the generated lookup Gen.Fourier.periodicFunction']
 ASSUMPTIONS = [
     'Python keyword binding (missing / unexpected keyword ⇒ TypeError) and comparison of a str or complex with a number (⇒ TypeError) are modelled as such',
-    'the time-domain, frequency-domain and transient solution classes, load_network and create_schematic are not modelled: their fault classes are checked on the implementation only',
+    'the series computed by the time- and frequency-domain getters, the wiring of TransientSolution (which row accessor each getter calls) and create_schematic are not modelled: those fault classes are checked on the implementation only; load_network is modelled by CC/Model/Load.lean (hand-written body over generated tables, correspondence cc_load)',
     'the hand-written model (Circuit.mk?, generateComponent, elmLoad, periodicFunction) is tied to the code by the correspondence only; constructor guards and tables are regenerated from the source',
 ]
 
